@@ -11,16 +11,20 @@ LEVEL_TEXT = ("Lean 4 theorems for every ragged shape (empty rows first, last, c
               "rows via searchsorted, padding, identity patch-up) returns red of every row; without an identity (max/min) it returns "
               "red of every NON-EMPTY row and one entry per row. argmax / argmin (column-broadcast comparison with the row extrema, "
               "np.nonzero, first hit per row via np.unique(return_index), scatter into zeros) return the FIRST position of the row's "
-              "maximum / minimum for every non-empty row and 0 for an empty one (C05_first_position_of, C05_argmax, C05_argmin). The numeric side (what numpy's reduce gives for a row of a given "
+              "maximum / minimum for every non-empty row and 0 for an empty one (C05_first_position_of, C05_argmax, C05_argmin). "
+              "numpy's reduce folds a row FROM THE IDENTITY e while reduceat folds a segment from its first cell: the repaired _reduce "
+              "(segment folds, e for empty rows, then ufunc(e, result)) equals the left fold from e of every row for every ASSOCIATIVE "
+              "op with op e e = e -- e need not be neutral, as for gcd, hypot, logaddexp (C05_reduce_from_identity; "
+              "C05_F05h_reduceat_alone_differs is the counterexample without the last step). The numeric side (what numpy's reduce gives for a row of a given "
               "dtype, result dtypes, mean/axis=None/keepdims wrappers, argmax/argmin on float cells) is decided by the correspondence: the model "
               "returns the cells of each segment, numpy reduces them, compared with the implementation over shapes x reductions x dtypes.")
 LEVEL_NOTE = ("Trusted: Lean kernel (+ standard axioms); hand model of _reduce (tied by correspondence); numpy reduceat on a non-empty "
-              "segment equals reduce on a copy of the segment for integer/bool dtypes and for max/min (float add is NOT bit-identical: "
+              "segment is the sequential fold of its cells and reduce the fold from the identity (float add is summed pairwise by reduce, NOT bit-identical: "
               "known finding F05c, judged with a relative-error bound); wrappers (axis=None, keepdims, mean) are "
               "correspondence-only.")
 TECHNIQUE = "Lean 4 proof of reduceat+patch-up model = map red rows; numpy-evaluated correspondence"
 DESIGN_REF = "7"
-LEAN_MODULES = ["NpsVerif.Props.C05", "NpsVerif.Props.C05B"]
+LEAN_MODULES = ["NpsVerif.Props.C05", "NpsVerif.Props.C05B", "NpsVerif.Props.C05C"]
 KERNELS = ()
 RULE = ("cases = ragged shape (exhaustive <=4 rows x <=2 cells quick, <=4x3 thorough, + random with many empty rows) x reduction "
         "(sum prod any all max min mean argmax argmin; np.<ufunc>.reduce for add multiply logical_and/or/xor bitwise_and/or/xor "
